@@ -37,6 +37,60 @@ theorem skelGo_selGo (st : SelSt) (ts : List Tok) :
 theorem skel_selToks (ts : List Tok) : skel (selToks ts) = skel ts :=
   skelGo_selGo SelSt.init ts
 
+theorem tt_beq_decide (a b : TT) : (a == b) = decide (a = b) := by
+  cases h : decide (a = b) <;> simp_all
+
+/-- outside `[…]` every token written has the kind of the token read (identifiers are only respelled) -/
+theorem kindsOutside_selGo (st : SelSt) (ts : List Tok) :
+    kindsOutside st.inAttr (selGo st ts) = kindsOutside st.inAttr ts := by
+  fun_induction selGo st ts
+  case case1 => rfl
+  case case2 st t r pc ps pm hA hI isPrefix ih =>
+    have hA' : st.inAttr = false := by simpa using hA
+    have hI' : t.tt = .ident := by simpa using hI
+    simp only [hA'] at ih ⊢
+    rcases t with ⟨tt, data, args⟩
+    simp only [Tok.tt] at hI'
+    subst hI'
+    simp only [kindsOutside, kindOf, Tok.tt, show (TT.ident == TT.leftBracket) = false from rfl, ih]
+    simp
+  case case3 st t r pc ps pm hA hI hD ih =>
+    rcases t with ⟨tt, data, args⟩
+    cases tt <;> simp_all [kindsOutside, kindOf, Tok.tt, Tok.data, Verif.Model.CssGrammar.wsTok, tt_beq_decide]
+  case case4 st t r pc ps pm hA hI hD hB ih =>
+    rcases t with ⟨tt, data, args⟩
+    cases tt <;> simp_all [kindsOutside, kindOf, Tok.tt, Tok.data, Verif.Model.CssGrammar.wsTok, tt_beq_decide]
+  case case5 st t r pc ps pm hA hI hD hB hF keep ih =>
+    rcases t with ⟨tt, data, args⟩
+    cases tt <;> simp_all [kindsOutside, kindOf, Tok.tt, Tok.data, Verif.Model.CssGrammar.wsTok, tt_beq_decide]
+  case case6 st t r pc ps pm hA hI hD hB hF hP ih =>
+    rcases t with ⟨tt, data, args⟩
+    cases tt <;> simp_all [kindsOutside, kindOf, Tok.tt, Tok.data, Verif.Model.CssGrammar.wsTok, tt_beq_decide]
+  case case7 st t r pc ps pm hA hI hD hB hF hP hQ ih =>
+    rcases t with ⟨tt, data, args⟩
+    cases tt <;> simp_all [kindsOutside, kindOf, Tok.tt, Tok.data, Verif.Model.CssGrammar.wsTok, tt_beq_decide]
+  case case8 st t r pc ps pm hA hI hD hB hF hP hQ ih =>
+    rcases t with ⟨tt, data, args⟩
+    cases tt <;> simp_all [kindsOutside, kindOf, Tok.tt, Tok.data, Verif.Model.CssGrammar.wsTok, tt_beq_decide]
+  case case9 st t r pc ps pm hA hU ih =>
+    rcases t with ⟨tt, data, args⟩
+    cases tt <;> simp_all [kindsOutside, kindOf, Tok.tt, Tok.data, Verif.Model.CssGrammar.wsTok, tt_beq_decide]
+  case case10 st t r pc ps pm hA hU hStr ih =>
+    rcases t with ⟨tt, data, args⟩
+    cases tt <;> simp_all [kindsOutside, kindOf, Tok.tt, Tok.data, Verif.Model.CssGrammar.wsTok, tt_beq_decide]
+  case case11 st t r pc ps pm hA hU hStr hRB ih =>
+    rcases t with ⟨tt, data, args⟩
+    cases tt <;> simp_all [kindsOutside, kindOf, Tok.tt, Tok.data, Verif.Model.CssGrammar.wsTok, tt_beq_decide]
+  case case12 st t r pc ps pm hA hU hStr hRB hFlag ih =>
+    rcases t with ⟨tt, data, args⟩
+    cases tt <;> simp_all [kindsOutside, kindOf, Tok.tt, Tok.data, Verif.Model.CssGrammar.wsTok, tt_beq_decide]
+  case case13 st t r pc ps pm hA hU hStr hRB hFlag ih =>
+    rcases t with ⟨tt, data, args⟩
+    cases tt <;> simp_all [kindsOutside, kindOf, Tok.tt, Tok.data, Verif.Model.CssGrammar.wsTok, tt_beq_decide]
+
+theorem kindsOutside_selToks (ts : List Tok) : kindsOutside false (selToks ts) = kindsOutside false ts :=
+  kindsOutside_selGo SelSt.init ts
+
 /-! ## the context stack of the specification and `keepLevel` of the code -/
 
 /-- `keepLevel` as a function of the specification's context stack (innermost first): the depth of the outermost
